@@ -33,7 +33,7 @@ def main():
     ap.add_argument('--src', required=True); ap.add_argument('--out', required=True); ap.add_argument('--tag', required=True)
     ap.add_argument('--root', action='append', default=[]); ap.add_argument('--cut', action='append', default=[])
     ap.add_argument('--enum', action='append', default=[]); ap.add_argument('--transparent', action='append', default=[])
-    ap.add_argument('--inc', action='append', default=[])
+    ap.add_argument('--inc', action='append', default=[]); ap.add_argument('--struct', action='append', default=[])
     ap.add_argument('--no-line', action='store_true')
     a = ap.parse_args()
     os.makedirs(a.out, exist_ok=True)
@@ -42,7 +42,7 @@ def main():
         base, cmd = compile_dump(a.src, a.out, a.tag, a.inc)
         U = g2c.Unit(base + '.cfg', base + '.ssa', base + '.opt', base + '.cls')
         aliases = json.load(open(os.path.join(os.path.dirname(os.path.abspath(__file__)), 'aliases.json')))
-        R = g2c.Renderer(U, base + '.o', aliases=aliases, line_directives=not a.no_line, transparent=a.transparent, enums=a.enum)
+        R = g2c.Renderer(U, base + '.o', aliases=aliases, line_directives=not a.no_line, transparent=a.transparent, enums=a.enum, extra_structs=a.struct)
         R.render_closure(a.root, cut=a.cut)
         th, fc = R.resolve(a.out)
     except g2c.G2CError as e:
